@@ -113,7 +113,27 @@ def ec_allowed(profiles, sp_view):
     return allowed
 
 
-def expected_release(identity, sp_view, ec_profiles=None):
+def restrict_values(identity, restrictions):
+    """The documented meaning of the policy option attribute_restrictions: only the listed attributes (names
+    compared case-insensitively) are released, and of a listed attribute with patterns only the values one of the
+    patterns matches (re.match); an attribute left without values is not released at all."""
+    import re
+    low = {k.lower(): v for k, v in restrictions.items()}
+    out = {}
+    for k, vals in identity.items():
+        if k.lower() not in low:
+            continue
+        pats = low[k.lower()]
+        if not pats:
+            out[k] = list(vals)
+            continue
+        keep = [v for v in vals if any(re.match(p_, v) for p_ in pats)]
+        if keep:
+            out[k] = keep
+    return out
+
+
+def expected_release(identity, sp_view, ec_profiles=None, restrictions=None):
     """What an IdP that knows the SP through `sp_view` releases of `identity` (documented: only what the SP's
     metadata asks for, when it asks for anything; a missing required attribute refuses the answer; with an
     entity-category release policy: only what the SP's categories entitle it to).
@@ -122,6 +142,9 @@ def expected_release(identity, sp_view, ec_profiles=None):
         allowed = ec_allowed(ec_profiles, sp_view)
         return {k: v for k, v in identity.items() if k.lower() in allowed}, allowed, False
     req, opt = list(sp_view.get("req_attrs") or []), list(sp_view.get("opt_attrs") or [])
+    if restrictions and not req and not opt:
+        rel = restrict_values(identity, restrictions)
+        return rel, set(k.lower() for k in restrictions), False
     if not req and not opt:
         return identity, None, False
     asked_for = set(n.lower() for n in req + opt)
@@ -248,6 +271,9 @@ def base_config(spec):
         cnf["accepted_time_diff"] = spec["slack"]
     if spec.get("only_md_keys") is not None:
         cnf["only_use_keys_in_metadata"] = bool(spec["only_md_keys"])
+        if spec["only_md_keys"] and spec.get("md_keys_text"):
+            # the switch comes from an environment variable / ini file: switched on, spelled as text
+            cnf["only_use_keys_in_metadata"] = spec["md_keys_text"]
     if spec.get("allow_unknown_attributes"):
         cnf["allow_unknown_attributes"] = True
     if spec.get("attr_map"):
